@@ -574,6 +574,12 @@ impl<R: Read + Seek> ReadDesc<&mut R> for DecoderSpecificDescriptor {
 
 impl<W: Write> WriteDesc<&mut W> for DecoderSpecificDescriptor {
     fn write_desc(&self, writer: &mut W) -> Result<u32> {
+        if self.freq_index == 0x0F {
+            // index 15 announces an explicit 24-bit sampling frequency, which this struct cannot hold
+            return Err(Error::InvalidData(
+                "explicit sampling frequency is not supported",
+            ));
+        }
         let size = self.desc_size();
         write_desc(writer, Self::desc_tag(), size)?;
 
